@@ -3,6 +3,7 @@ Driver handler `name` (C12, string half).
 
     name parse <hex>          →  ok <hexvar> <int>  |  err ValueError
     name format <hex> <int>   →  ok <hex>           |  err ValueError
+    name extract <hxlist>     →  ok <hexvar>:<int>,… <max>   |  err ValueError      (`.` = empty list)
 -/
 import CG.Driver.Codec
 import CG.Model.Name
@@ -25,6 +26,15 @@ def handle : List String → String
       | none => "err ValueError"
       | some r => "ok " ++ hexEnc r
     | _, _ => "bad-op"
+  | ["extract", t] =>
+    match decList? t with
+    | none => "bad-op"
+    | some names =>
+      match CG.Name.extractNamesAndLags names with
+      | none => "err ValueError"
+      | some (ps, m) =>
+        let body := if ps.isEmpty then "." else joinList (ps.map fun p => hexEnc p.1 ++ ":" ++ toString p.2)
+        "ok " ++ body ++ " " ++ toString m
   | _ => "bad-op"
 
 end CG.Driver.Name
